@@ -171,11 +171,30 @@ def check(case):
         cls = {"min": P.CountMinSketch, "mean": P.CountMeanSketch, "meanmin": P.CountMeanMinSketch}[mode]
         c = cls(width=case["w"], depth=case["d"])
         adds = list(zip(keys, case["amounts"]))
-        for k, n in adds:
-            c.add(k, n)
+        # the history also removes (from other keys too: the total is a signed net count) and clears; the
+        # reference writer replays it: add = +n, remove = -n on the key's cells, clear = start again
+        hist = [("add", k, n) for k, n in adds]
+        if case["seed"] % 3 == 0 and adds:
+            total = sum(n for _, n in adds)
+            cut = len(hist) // 2
+            net = sum(n for _, _, n in hist[:cut])
+            hist = hist[:cut] + ([("rem", "other-%d" % case["seed"], net)] if net > 0 else []) + [("clear",)] + hist[cut:]
+        elif case["seed"] % 3 == 1:
+            hist += [("rem", k, min(n, 3)) for k, n in adds[::2]]
+        replayed = []
+        for op in hist:
+            if op[0] == "add":
+                c.add(op[1], op[2])
+                replayed.append((op[1], op[2]))
+            elif op[0] == "rem":
+                c.remove(op[1], op[2])
+                replayed.append((op[1], -op[2]))
+            else:
+                c.clear()
+                replayed = []
         data = bytes(c)
-        if data != ref_cms_writer(case["w"], case["d"], adds):
-            return "count-min export differs from the reference writer's file"
+        if data != ref_cms_writer(case["w"], case["d"], replayed):
+            return "count-min export differs from the reference writer's file" + (" (history with clear())" if any(o[0] == "clear" for o in hist) else "")
         for k in probes:
             if ref_cms_reader(data, k, mode) != c.check(k):
                 return f"reference count-min reader ({mode}) and library disagree on {k!r}: {ref_cms_reader(data, k, mode)} vs {c.check(k)}"
@@ -245,6 +264,30 @@ def check(case):
             want = [int(f) for f in bkt] + [0] * (b - len(bkt)) if kind == "cuckoo" else [(int(x.finger), int(x.count)) for x in bkt] + [(0, 0)] * (b - len(bkt))
             if cells != want:
                 return f"cuckoo export: bucket {i} is {cells}, table has {want}"
+        # reference reader written from the documented rule, given only the file, the fingerprint width and a key:
+        # fp = low bits of FNV-1a(key) (0 -> 1); candidate buckets fp mod capacity and FNV-1a(str(fp)) mod capacity
+        cap = (len(data) - 8) // (b * width)
+        fbits = c.fingerprint_size_bits
+
+        def file_bucket(i):
+            return [struct.unpack_from("<I", data, (i * b + j) * width)[0] for j in range(b)]
+
+        def candidates(fp):
+            return fp % cap, ref_hashes(str(fp), 1)[0] % cap
+
+        for i in range(cap):
+            for fp in file_bucket(i):
+                if fp != 0 and i not in candidates(fp):
+                    return f"cuckoo export: fingerprint {fp} sits in bucket {i}, the documented rule allows {sorted(set(candidates(fp)))} (capacity {cap})"
+        for key in probes:
+            if not isinstance(key, str):
+                continue
+            fp = ref_hashes(key, 1)[0] & (2**fbits - 1) or 1
+            i1, i2 = candidates(fp)
+            got = fp in file_bucket(i1) or fp in file_bucket(i2)
+            lib = bool(c.check(key))
+            if got != lib:
+                return f"reference cuckoo reader and library disagree on {key!r}: reader {got}, library {lib}"
     return None
 
 
